@@ -172,8 +172,14 @@ func (r *runner) build() error {
 	case "host-udpmux":
 		ctypes = []ice.CandidateType{ice.CandidateTypeHost}
 		m := &fudpMux{fmux{w: w, kind: "udpmux", addrs: []net.Addr{&net.UDPAddr{IP: net.IPv4(10, 1, 0, 1), Port: 6000}}}}
-		if sc.Two {
+		if sc.Two || dup {
 			m.addrs = append(m.addrs, &net.UDPAddr{IP: net.IPv4(10, 1, 0, 2), Port: 6000})
+		}
+		if dup {
+			// both listen addresses map to one advertised host address: the second is a duplicate configuration, for which the
+			// gatherer must not take (or must give back) a reference from the mux
+			opts = append(opts, ice.WithAddressRewriteRules(ice.AddressRewriteRule{External: []string{"1.2.3.4"}, AsCandidateType: ice.CandidateTypeHost,
+				Mode: ice.AddressRewriteReplace}))
 		}
 		if sc.Multi {
 			opts = append(opts, ice.WithAddressRewriteRules(ice.AddressRewriteRule{External: []string{"1.2.3.4"}, AsCandidateType: ice.CandidateTypeHost,
@@ -183,7 +189,11 @@ func (r *runner) build() error {
 	case "host-tcpmux":
 		ctypes = []ice.CandidateType{ice.CandidateTypeHost}
 		nets = []ice.NetworkType{ice.NetworkTypeTCP4}
-		opts = append(opts, ice.WithTCPMux(&ftcpMux{fmux: fmux{w: w, kind: "tcpmux"}, port: 7000}))
+		if sc.Multi { // several listeners: all their connections are fetched in one go, each becomes a candidate of its own
+			opts = append(opts, ice.WithTCPMux(&fmultiTCPMux{ftcpMux: ftcpMux{fmux: fmux{w: w, kind: "tcpmux"}, port: 7000}, ports: []int{7000, 7001, 7002}}))
+		} else {
+			opts = append(opts, ice.WithTCPMux(&ftcpMux{fmux: fmux{w: w, kind: "tcpmux"}, port: 7000}))
+		}
 	case "srflx-own":
 		ctypes = []ice.CandidateType{ice.CandidateTypeServerReflexive}
 		urls = []*stun.URI{mustURL(r.t, "stun:8.8.8.8:3478")}
@@ -409,8 +419,8 @@ func (r *runner) armGate() {
 	}
 	w.gateOn = true
 	w.gateSkip = 0
-	if r.sc.Fault == "dup" || r.sc.Two {
-		w.gateSkip = 1
+	if (r.sc.Fault == "dup" && r.sc.Site != "host-udpmux") || r.sc.Two {
+		w.gateSkip = 1 // (the mux host gatherer acquires nothing for a duplicate configuration: its one acquisition is the scripted one)
 	}
 }
 
